@@ -9,6 +9,9 @@
 //!   fmt     FlushImmediately over Emf.output_to(writer failing hard at scripted calls) (oracle only)
 //!   fmtseq  one persistent validating Emf behind FlushImmediately / BackgroundQueue, mixed plain / split /
 //!           rejected entries: the writer must receive exactly the accepted entries' records, entry by entry (oracle only)
+//!   fmtbuf  Emf.output_to(buffering writer whose flush may fail and keep its buffer), called directly / behind
+//!           FlushImmediately / behind BackgroundQueue (model: Sinks.FmtBuf, request `B …`; oracle: an Ok flush
+//!           delivers everything accepted so far, whatever failed before)
 //!
 //! Oracle (from the property, not from the model): every leaf stream receives every appended entry
 //! exactly once in append order whatever any stream returned; every leaf is flushed after every
@@ -624,6 +627,155 @@ fn run_fmtseq(entries: &[GenEntry], via_queue: bool) -> (usize, Option<String>) 
     (rejected, None)
 }
 
+
+// ---- fmtbuf kind: Emf.output_to(buffering writer): `write` buffers, `flush` delivers or fails (keeping
+// the buffer, like BufWriter). Modes: d = stream called directly (ops next / flush), i = FlushImmediately
+// (append = next + flush), q = BackgroundQueue (appends, two awaited flushes, drop handle).
+// Model: Sinks.FmtBuf (request `B …`). Oracle: after every Ok flush everything accepted so far has been
+// delivered; nothing is delivered twice or out of order; every stream flush reaches the writer. ----------
+
+#[derive(Default)]
+struct BufState {
+    buf: Vec<u8>,
+    delivered: Vec<u8>,
+    written: Vec<u8>,
+    flush_calls: usize,
+    /// flush call k fails iff script[k] == false (true beyond the script)
+    script: Vec<bool>,
+}
+
+#[derive(Clone)]
+struct BufferingWriter(Arc<Mutex<BufState>>);
+
+impl io::Write for BufferingWriter {
+    fn write(&mut self, b: &[u8]) -> io::Result<usize> {
+        let mut st = self.0.lock().unwrap();
+        st.buf.extend_from_slice(b);
+        st.written.extend_from_slice(b);
+        Ok(b.len())
+    }
+    fn flush(&mut self) -> io::Result<()> {
+        let mut st = self.0.lock().unwrap();
+        let k = st.flush_calls;
+        st.flush_calls += 1;
+        if st.script.get(k).copied().unwrap_or(true) {
+            let b = std::mem::take(&mut st.buf);
+            st.delivered.extend_from_slice(&b);
+            Ok(())
+        } else {
+            Err(io::Error::new(io::ErrorKind::TimedOut, "scripted flush failure"))
+        }
+    }
+}
+
+/// ops: `n` = next/append, `f` = flush. Returns (model request, implementation's canonical answer, oracle failure)
+fn run_fmtbuf(mode: char, ops: &str, script: &[bool]) -> (Option<(String, String)>, Option<String>) {
+    let st = Arc::new(Mutex::new(BufState { script: script.to_vec(), ..Default::default() }));
+    let w = BufferingWriter(st.clone());
+    let stream = Emf::no_validations("Ns".into(), vec![vec![]]).output_to(w);
+    let st2 = st.clone();
+    let ops_owned = ops.to_string();
+    let r = catch(move || {
+        let mut results = String::new();
+        let mut req: Vec<String> = vec![];
+        let mut fail = None;
+        let check_flush_ok = |fail: &mut Option<String>, what: &str| {
+            let s = st2.lock().unwrap();
+            if s.delivered != s.written && fail.is_none() {
+                *fail = Some(format!(
+                    "{what}: the flush returned Ok but only {} of the {} bytes accepted so far were delivered by the writer",
+                    s.delivered.len(),
+                    s.written.len()
+                ));
+            }
+        };
+        match mode {
+            'd' => {
+                let mut s = stream;
+                for (id, op) in ops_owned.chars().enumerate() {
+                    if op == 'n' {
+                        let before = st2.lock().unwrap().written.len();
+                        results.push(if s.next(&IdEntry(id as u64)).is_ok() { 'o' } else { 'e' });
+                        req.push(format!("n{}", st2.lock().unwrap().written.len() - before));
+                    } else {
+                        let k = st2.lock().unwrap().flush_calls;
+                        let ok = s.flush().is_ok();
+                        results.push(if ok { 'o' } else { 'e' });
+                        let calls = st2.lock().unwrap().flush_calls;
+                        if calls != k + 1 && fail.is_none() {
+                            fail = Some(format!("stream.flush() made {} writer flush calls (want exactly 1)", calls - k));
+                        }
+                        req.push(if st2.lock().unwrap().script.get(k).copied().unwrap_or(true) { "fo".into() } else { "ff".into() });
+                        if ok {
+                            check_flush_ok(&mut fail, "direct stream");
+                        }
+                    }
+                }
+            }
+            'i' => {
+                let sink = FlushImmediately::<IdEntry, _>::new(stream);
+                for (id, _) in ops_owned.chars().filter(|c| *c == 'n').enumerate() {
+                    let before = st2.lock().unwrap().written.len();
+                    let k = st2.lock().unwrap().flush_calls;
+                    sink.append(IdEntry(id as u64));
+                    req.push(format!("n{}", st2.lock().unwrap().written.len() - before));
+                    let ok = st2.lock().unwrap().script.get(k).copied().unwrap_or(true);
+                    req.push(if ok { "fo".into() } else { "ff".into() });
+                    results.push('o');
+                    results.push(if ok { 'o' } else { 'e' });
+                    let calls = st2.lock().unwrap().flush_calls;
+                    if calls != k + 1 && fail.is_none() {
+                        fail = Some(format!("FlushImmediately::append made {} writer flush calls (want exactly 1)", calls - k));
+                    }
+                    if ok {
+                        check_flush_ok(&mut fail, "FlushImmediately");
+                    }
+                }
+            }
+            _ => {
+                let n = ops_owned.chars().filter(|c| *c == 'n').count();
+                let (q, handle) = BackgroundQueueBuilder::new().capacity(n + 8).flush_interval(Duration::from_secs(50)).build::<IdEntry>(stream);
+                for id in 0..n {
+                    q.append(IdEntry(id as u64));
+                }
+                let rt = tokio::runtime::Builder::new_current_thread().enable_all().build().unwrap();
+                rt.block_on(q.flush_async());
+                rt.block_on(q.flush_async());
+                // at most one writer flush fails in this mode: of the (at least two) flushes made after the last
+                // append one succeeded, and a successful flush delivers everything buffered
+                check_flush_ok(&mut fail, "BackgroundQueue, second awaited flush_async");
+                drop(handle);
+            }
+        }
+        (results, req, fail)
+    });
+    match r {
+        Err(p) => (None, Some(format!("panicked: {p}"))),
+        Ok((results, req, fail)) => {
+            let s = st.lock().unwrap();
+            let mut fail = fail;
+            if fail.is_none() && !(s.written.starts_with(&s.delivered) && s.written.len() == s.delivered.len() + s.buf.len()) {
+                fail = Some("delivered bytes are not a prefix of the accepted bytes (lost, duplicated or reordered)".into());
+            }
+            let pair = if mode == 'q' {
+                None
+            } else {
+                Some((format!("B {}", req.join(" ")), format!("{} | {} {} {}", results, s.delivered.len(), s.buf.len(), s.flush_calls)))
+            };
+            (pair, fail)
+        }
+    }
+}
+
+fn parse_fmtbuf_case(line: &str) -> Option<(char, String, Vec<bool>)> {
+    // "fmtbuf d nnfnf 0110"
+    let mut it = line.strip_prefix("fmtbuf ")?.split(' ');
+    let mode = it.next()?.chars().next()?;
+    let ops = it.next()?.to_string();
+    let script = it.next().unwrap_or("").chars().map(|c| c == '1').collect();
+    Some((mode, ops, script))
+}
+
 fn parse_fmt_case(line: &str) -> Option<(usize, Vec<usize>, Vec<usize>, usize, bool)> {
     // "fmt n=3 hard=[0, 2] zero=[] path=1 direct=1"
     let rest = line.strip_prefix("fmt ")?;
@@ -792,6 +944,54 @@ fn main() {
             let enc = format!("fmtseq {} {}", if *via_queue { "bgq" } else { "imm" }, shrunk.iter().map(|e| e.encode()).collect::<Vec<_>>().join(" ;; "));
             rep.oracle_failure("sinks:fmtseq", &enc, "", &what.unwrap_or_default());
         }
+    }
+    // fmtbuf kind: buffering writer behind a formatted stream (model Sinks.FmtBuf + oracle)
+    let mut bufcases: Vec<(char, String, Vec<bool>)> = vec![];
+    if let Some(line) = args.replay_case() {
+        bufcases.extend(parse_fmtbuf_case(&line));
+    } else {
+        for l in args.corpus_cases() {
+            bufcases.extend(parse_fmtbuf_case(&l));
+        }
+        let nb = if args.thorough() { 60_000 } else { 4_000 };
+        for k in 0..nb {
+            let mode = if k % 20 == 0 { 'q' } else if k % 2 == 0 { 'd' } else { 'i' };
+            let len = rng.range(1, 9) as usize;
+            let ops: String = (0..len).map(|_| if mode != 'd' || rng.chance(1, 2) { 'n' } else { 'f' }).collect();
+            let script: Vec<bool> = if mode == 'q' {
+                // exactly one failing writer flush, among the first few calls
+                let bad = rng.below(4) as usize;
+                (0..6).map(|i| i != bad).collect()
+            } else {
+                (0..len + 2).map(|_| !rng.chance(1, 3)).collect()
+            };
+            bufcases.push((mode, ops, script));
+        }
+    }
+    let mut breqs = vec![];
+    let mut bans = vec![];
+    for (mode, ops, script) in &bufcases {
+        let enc = format!("fmtbuf {mode} {ops} {}", script.iter().map(|b| if *b { '1' } else { '0' }).collect::<String>());
+        let (pair, fail) = run_fmtbuf(*mode, ops, script);
+        rep.case(&enc, script.iter().any(|b| !*b));
+        rep.bump(&format!("kind:fmtbuf:{mode}"));
+        if let Some(what) = fail {
+            rep.oracle_failure("sinks:fmtbuf", &enc, "", &what);
+        }
+        if let Some((req, ans)) = pair {
+            breqs.push(req);
+            bans.push((enc, ans));
+        }
+    }
+    match run_driver(&args.driver, "sinks", &breqs) {
+        Some(replies) => {
+            for ((enc, ans), reply) in bans.iter().zip(replies.iter()) {
+                if ans != reply {
+                    rep.disagreement("sinks/fmtbuf", enc, ans, reply);
+                }
+            }
+        }
+        None => rep.driver_available = false,
     }
     rep.write(&args);
 }
